@@ -134,7 +134,7 @@ def run(res, ctx):
     rng = random.Random(seed * 32452843 + 2)
     st = collections.Counter()
     seen, samples, corr = set(), [], []
-    n = 1800 if tier == "quick" else 10000
+    n = 1800 if tier == "quick" else 50000
     done = 0
     while done < n:
         cases = []
